@@ -40,7 +40,8 @@ type vGraph struct {
 	dep     [][]int // symbolic type ids each node depends on
 	twoOut  []bool
 	out     int
-	direct  []bool // node is a direct Build argument (else in the imported set)
+	place   []int  // -1: direct Build argument; i >= 0: member of imported set i
+	nsets   int
 	given   []int  // node indices of injector arguments, in tuple order
 	need1   []bool
 	need2   []bool
@@ -146,7 +147,8 @@ func buildGraph(kinds []int, K, M int, symbolicPlacement bool) *vGraph {
 	g.pkg = types.NewPackage("example.com/h", "h")
 	g.dep = make([][]int, g.N)
 	g.twoOut = make([]bool, g.N)
-	g.direct = make([]bool, g.N)
+	g.place = make([]int, g.N)
+	g.nsets = 1
 	for k, kind := range kinds {
 		g.twoOut[k] = kind == nkStruct || kind == nkFieldP
 		if kind == nkGiven {
@@ -176,7 +178,8 @@ func buildGraph(kinds []int, K, M int, symbolicPlacement bool) *vGraph {
 			g.dep[k] = []int{c}
 		}
 		if symbolicPlacement && kind != nkGiven {
-			g.direct[k] = vConcBool(vBool(fmt.Sprintf("direct%d", k)))
+			g.nsets = vParam("direct", 1)
+			g.place[k] = vConc(vInt(fmt.Sprintf("place%d", k), -1, g.nsets-1))
 		}
 	}
 	// bindings: the concrete type has a source that is not itself a binding
@@ -196,6 +199,7 @@ func buildGraph(kinds []int, K, M int, symbolicPlacement bool) *vGraph {
 type vBuilt struct {
 	set    *ProviderSet
 	imp    *ProviderSet
+	imps   []*ProviderSet
 	given  *types.Tuple
 	items  []interface{} // per node: *Provider, *Field, *IfaceBinding, *Value or nil
 	fset   *token.FileSet
@@ -212,11 +216,19 @@ func (g *vGraph) materialise() *vBuilt {
 	}
 	b.given = types.NewTuple(vars...)
 	top := &ProviderSet{PkgPath: "example.com/h", InjectorArgs: &InjectorArgs{Name: "inject", Tuple: b.given}}
-	imp := &ProviderSet{PkgPath: "example.com/h", VarName: "Set1"}
+	var imps []*ProviderSet
+	for i := 0; i < g.nsets; i++ {
+		name := ""
+		if vParam("named", 1) != 0 {
+			name = fmt.Sprintf("Set%d", i+1)
+		}
+		imps = append(imps, &ProviderSet{PkgPath: "example.com/h", VarName: name})
+	}
+	imp := imps[0]
 	for k, kind := range g.kinds {
-		dst := imp
-		if g.direct[k] {
-			dst = top
+		dst := top
+		if g.place[k] >= 0 {
+			dst = imps[g.place[k]]
 		}
 		switch kind {
 		case nkFunc, nkStruct:
@@ -248,15 +260,15 @@ func (g *vGraph) materialise() *vBuilt {
 			dst.Values = append(dst.Values, v)
 		}
 	}
-	b.set, b.imp = top, imp
+	b.set, b.imp, b.imps = top, imp, imps
 	return b
 }
 
 // inImp: type id t is provided by a member of the imported set.
-func (g *vGraph) placedIn(t int, direct bool) bool {
+func (g *vGraph) placedIn(t int, set int) bool {
 	acc := false
 	for k := 0; k < g.N; k++ {
-		if g.kinds[k] == nkGiven || g.direct[k] != direct {
+		if g.kinds[k] == nkGiven || g.place[k] != set {
 			continue
 		}
 		acc = vOr(acc, t == k)
@@ -275,29 +287,34 @@ func H_solve() {
 	g := buildGraph(kinds, K, M, placement)
 	b := g.materialise()
 
-	// The imported set: a binding placed there needs its concrete type there too (C11).
-	impHas := false
-	impBindBad := false
-	for k, kind := range g.kinds {
-		if kind == nkGiven || g.direct[k] {
-			continue
-		}
-		impHas = true
-		if kind == nkBind {
-			impBindBad = vOr(impBindBad, vNot(g.placedIn(g.dep[k][0], false)))
-		}
-	}
+	// The imported sets: a binding placed in one needs its concrete type in that same set (C11).
 	var errs []error
-	b.imp.providerMap, b.imp.srcMap, errs = buildProviderMap(b.fset, b.hasher, b.imp)
-	vA("C11", vIff(len(errs) > 0, impBindBad), "nested set: rejected iff a binding's concrete type is not provided by that same set")
-	if len(errs) > 0 {
-		vA("C05,C11", b.imp.providerMap == nil, "buildProviderMap returns no map when it reports errors")
-		vCover("imp-binding-rejected")
-		return
+	impHas := make([]bool, g.nsets)
+	for si := 0; si < g.nsets; si++ {
+		impBindBad := false
+		for k, kind := range g.kinds {
+			if kind == nkGiven || g.place[k] != si {
+				continue
+			}
+			impHas[si] = true
+			if kind == nkBind {
+				impBindBad = vOr(impBindBad, vNot(g.placedIn(g.dep[k][0], si)))
+			}
+		}
+		imp := b.imps[si]
+		imp.providerMap, imp.srcMap, errs = buildProviderMap(b.fset, b.hasher, imp)
+		vA("C11", vImplies(impBindBad, len(errs) > 0), "nested set: a binding whose concrete type is not provided by that same set is rejected")
+		vA("C10", vImplies(len(errs) > 0, impBindBad), "nested set: a set whose bindings all have their concrete type in the same set is accepted")
+		if len(errs) > 0 {
+			vA("C05,C11", imp.providerMap == nil, "buildProviderMap returns no map when it reports errors")
+			vCover("imp-binding-rejected")
+			return
+		}
+		if impHas[si] {
+			b.set.Imports = append(b.set.Imports, imp)
+		}
 	}
-	if impHas {
-		b.set.Imports = []*ProviderSet{b.imp}
-	}
+	// a binding placed directly needs its concrete type anywhere in the Build set (imports included): always true here
 	b.set.providerMap, b.set.srcMap, errs = buildProviderMap(b.fset, b.hasher, b.set)
 	vA("C10", len(errs) == 0, "a set whose sources have pairwise distinct types and co-located bindings is accepted by buildProviderMap")
 
@@ -306,17 +323,20 @@ func H_solve() {
 	// ---- oracle: rejection (C06, C08) ----
 	missing := g.neededMissing()
 	unused := false
-	if impHas {
+	for si := 0; si < g.nsets; si++ {
+		if !impHas[si] {
+			continue
+		}
 		impUsed := false
 		for k := 0; k < g.N; k++ {
-			if g.kinds[k] != nkGiven && !g.direct[k] {
+			if g.kinds[k] != nkGiven && g.place[k] == si {
 				impUsed = vOr(impUsed, vOr(g.need1[k], g.need2[k]))
 			}
 		}
 		unused = vOr(unused, vNot(impUsed))
 	}
 	for k := 0; k < g.N; k++ {
-		if g.direct[k] {
+		if g.kinds[k] != nkGiven && g.place[k] < 0 {
 			unused = vOr(unused, vNot(vOr(g.need1[k], g.need2[k])))
 		}
 	}
